@@ -1315,10 +1315,11 @@ Qed.
 Definition ok7 (k : Z) : Prop := k <> 1 /\ k <> 2 /\ k <> 3 /\ k <> 5.
 Definition ok8 (k : Z) : Prop := k <> 1 /\ k <> 2 /\ k <> 5 /\ k <> 6 /\ k <> 8 /\ k <> 9.
 
-Definition step_ok (univ : list (Z * Z)) (c : config) (s : state) (seen : list reqid) (st : step) : Prop :=
+Definition step_okq (Q7 Q8 : Z -> Prop) (univ : list (Z * Z)) (c : config) (s : state) (seen : list reqid) (st : step) : Prop :=
   forall pc pn pb fired tr sc,
-    ok7 (holds_C07 c (obs_of univ pc pn pb s) st (obs_step univ c s st))
-    /\ ok8 (holds_C08 seen fired tr sc (obs_of univ pc pn pb s) st (obs_step univ c s st)).
+    Q7 (holds_C07 c (obs_of univ pc pn pb s) st (obs_step univ c s st))
+    /\ Q8 (holds_C08 seen fired tr sc (obs_of univ pc pn pb s) st (obs_step univ c s st)).
+Notation step_ok := (step_okq ok7 ok8).
 
 Lemma check_from_cons c s p seen fired tr sc st o rest i corr p7 c7 p8 c8 :
   check_from c s p seen fired tr sc ((st, Full o) :: rest) i corr p7 c7 p8 c8 =
@@ -1334,12 +1335,12 @@ Proof.
   destruct ((p7 <? 0) && negb (holds_C07 c p st o =? 0)); destruct ((p8 <? 0) && negb (holds_C08 seen fired tr sc p st o =? 0)); reflexivity.
 Qed.
 
-Lemma check_from_clauses univ c : forall rest s seen,
-  (forall pre st post, rest = pre ++ st :: post -> step_ok univ c (run c s pre) (model_seen univ c s seen pre) st) ->
+Lemma check_from_clauses_q (Q7 Q8 : Z -> Prop) univ c : forall rest s seen,
+  (forall pre st post, rest = pre ++ st :: post -> step_okq Q7 Q8 univ c (run c s pre) (model_seen univ c s seen pre) st) ->
   forall pc pn pb fired tr sc i corr p7 c7 p8 c8,
     let '(_, _, c7', _, c8') :=
       check_from c s (obs_of univ pc pn pb s) seen fired tr sc (model_trace univ c s rest) i corr p7 c7 p8 c8 in
-    (c7' = c7 \/ ok7 c7') /\ (c8' = c8 \/ ok8 c8').
+    (c7' = c7 \/ Q7 c7') /\ (c8' = c8 \/ Q8 c8').
 Proof.
   induction rest as [|st r IH]; intros s seen H pc pn pb fired tr sc i corr p7 c7 p8 c8.
   - cbn [model_trace check_from]. split; left; reflexivity.
@@ -1348,7 +1349,7 @@ Proof.
     set (p := obs_of univ pc pn pb s) in *. set (o := obs_step univ c s st) in *.
     set (k7 := holds_C07 c p st o) in *. set (k8 := holds_C08 seen fired tr sc p st o) in *.
     assert (H' : forall pre st0 post, r = pre ++ st0 :: post ->
-              step_ok univ c (run c (apply c s st) pre)
+              step_okq Q7 Q8 univ c (run c (apply c s st) pre)
                 (model_seen univ c (apply c s st) (seen ++ map fst (created_in p o)) pre) st0).
     { intros pre st0 post E. exact (H (st :: pre) st0 post (f_equal (cons st) E)). }
     pose proof (IH (apply c s st) (seen ++ map fst (created_in p o)) H'
@@ -1365,6 +1366,14 @@ Proof.
     + destruct G7 as [G7|G7]; [|right; exact G7]. destruct ((p7 <? 0) && negb (k7 =? 0)); [right; rewrite G7; exact K7|left; exact G7].
     + destruct G8 as [G8|G8]; [|right; exact G8]. destruct ((p8 <? 0) && negb (k8 =? 0)); [right; rewrite G8; exact K8|left; exact G8].
 Qed.
+
+Lemma check_from_clauses univ c : forall rest s seen,
+  (forall pre st post, rest = pre ++ st :: post -> step_ok univ c (run c s pre) (model_seen univ c s seen pre) st) ->
+  forall pc pn pb fired tr sc i corr p7 c7 p8 c8,
+    let '(_, _, c7', _, c8') :=
+      check_from c s (obs_of univ pc pn pb s) seen fired tr sc (model_trace univ c s rest) i corr p7 c7 p8 c8 in
+    (c7' = c7 \/ ok7 c7') /\ (c8' = c8 \/ ok8 c8').
+Proof. exact (check_from_clauses_q ok7 ok8 univ c). Qed.
 
 Lemma create_txhs_app a b : create_txhs (a ++ b) = create_txhs a ++ create_txhs b.
 Proof. induction a as [|st a IH]; [reflexivity|]. cbn [app create_txhs]. destruct (create_txh st); rewrite IH; reflexivity. Qed.
@@ -1715,4 +1724,75 @@ Proof.
   unfold check_case_C07, check_case_C08. rewrite E.
   destruct (check_from _ _ _ _ _ _ _ _ _ _ _ _ _ _) as [[[[r1 r2] r3] r4] r5].
   split; intros corr p k Ek; inversion Ek; subst; reflexivity.
+Qed.
+
+(** the same for ANY configuration (module-served services included, any end-block step), without clause 1 *)
+Definition ok8m (k : Z) : Prop := k <> 2 /\ k <> 5 /\ k <> 6 /\ k <> 8 /\ k <> 9.
+
+Lemma model_step_ok_any c steps h0 t0 l0 univ :
+  0 <= c_tax c -> clean l0 -> NoDup (create_txhs steps) ->
+  In (DEP, BASE) univ -> (forall d, In d (denoms c) -> In (REQ, d) univ) ->
+  (forall pre st post, steps = pre ++ st :: post -> forall rid q, get rid (reqs (run c (init h0 t0 l0) pre)) = Some q ->
+     In (TAX, q_fd q) univ /\ In (REQ, q_fd q) univ) ->
+  forall pre st post, steps = pre ++ st :: post ->
+    step_okq ok7 ok8m univ c (run c (init h0 t0 l0) pre) (model_seen univ c (init h0 t0 l0) [] pre) st.
+Proof.
+  intros Htax Hcl Hnd Hu1 Hu2 Hu5 pre st post E pc pn pb fired tr sc.
+  assert (Hnd1 : NoDup (create_txhs (pre ++ [st]))).
+  { rewrite E in Hnd. replace (pre ++ st :: post) with ((pre ++ [st]) ++ post) in Hnd by (rewrite <- app_assoc; reflexivity).
+    rewrite create_txhs_app in Hnd. exact (NoDup_app_l _ _ Hnd). }
+  assert (Hnd0 : NoDup (create_txhs pre)).
+  { rewrite create_txhs_app in Hnd1. exact (NoDup_app_l _ _ Hnd1). }
+  set (s := run c (init h0 t0 l0) pre) in *.
+  split.
+  - pose proof (model_passes_C07_clauses_1_2_lemma c (pre ++ [st]) h0 t0 l0 univ (obs_of univ pc pn pb s) st
+                  (res_code (exec_step c s st)) (step_newctx s st (exec_step c s st)) (skipn (length (cblog s)) (cblog (apply c s st)))
+                  Hcl Hnd1 Hu1 Hu2) as A.
+    pose proof (model_passes_C07_clause_3_lemma c (pre ++ [st]) h0 t0 l0 univ (obs_of univ pc pn pb s) st
+                  (res_code (exec_step c s st)) (step_newctx s st (exec_step c s st)) (skipn (length (cblog s)) (cblog (apply c s st)))) as B.
+    cbv zeta in A, B. rewrite run_snoc in A, B. fold s in A, B.
+    destruct (reach_G c pre h0 t0 l0 Hcl Hnd0) as (_ & _ & _ & _ & He). fold s in He.
+    pose proof (model_passes_C07_clause_5_lemma c s st univ pc pn pb Htax) as C.
+    split; [exact (proj1 A)|]. split; [exact (proj2 A)|]. split; [exact B|]. apply C.
+    intros rid q Hg. split; [exact (e_fee _ He rid q (get_In _ _ _ Hg))|]. exact (Hu5 pre st post E rid q Hg).
+  - pose proof (model_passes_C08_clause_8_lemma c (pre ++ [st]) h0 t0 l0 univ (model_seen univ c (init h0 t0 l0) [] pre) fired tr sc (obs_of univ pc pn pb s) st
+                  (res_code (exec_step c s st)) (step_newctx s st (exec_step c s st)) (skipn (length (cblog s)) (cblog (apply c s st))) Hnd1) as A8.
+    pose proof (model_passes_C08_clause_9_lemma c (pre ++ [st]) h0 t0 l0 univ (model_seen univ c (init h0 t0 l0) [] pre) fired tr sc (obs_of univ pc pn pb s) st
+                  (res_code (exec_step c s st)) (step_newctx s st (exec_step c s st)) (skipn (length (cblog s)) (cblog (apply c s st))) Hnd1) as A9.
+    cbv zeta in A8, A9. rewrite run_snoc in A8, A9. fold s in A8, A9.
+    pose proof (reach_K c pre h0 t0 l0) as Hk. fold s in Hk.
+    split; [apply model_passes_C08_clause_2_lemma|]. split; [apply model_passes_C08_clause_5_lemma; exact Hk|].
+    split; [apply model_passes_C08_clause_6_lemma|]. split; [exact A8|exact A9].
+Qed.
+
+Theorem model_passes_clauses_any_lemma :
+  forall c steps h0 t0 l0 univ,
+    0 <= c_tax c -> clean l0 -> NoDup (create_txhs steps) ->
+    In (DEP, BASE) univ -> (forall d, In d (denoms c) -> In (REQ, d) univ) ->
+    (forall pre st post, steps = pre ++ st :: post -> forall rid q, get rid (reqs (run c (init h0 t0 l0) pre)) = Some q ->
+       In (TAX, q_fd q) univ /\ In (REQ, q_fd q) univ) ->
+    ledger_of (obs_of univ 0 None [] (init h0 t0 l0)) = l0 ->
+    let cs := model_case univ c h0 t0 l0 steps in
+    (forall corr p k, check_case_C07 cs = (corr, p, k) -> corr = -1 /\ k <> 1 /\ k <> 2 /\ k <> 3 /\ k <> 5)
+    /\ (forall corr p k, check_case_C08 cs = (corr, p, k) -> corr = -1 /\ k <> 2 /\ k <> 5 /\ k <> 6 /\ k <> 8 /\ k <> 9).
+Proof.
+  intros c steps h0 t0 l0 univ Htax Hcl Hnd Hu1 Hu2 Hu5 Hl cs.
+  destruct (model_corresponds_to_itself_lemma c steps h0 t0 l0 univ Hnd Hl) as (C7 & C8). fold cs in C7, C8.
+  pose proof (model_step_ok_any c steps h0 t0 l0 univ Htax Hcl Hnd Hu1 Hu2 Hu5) as H.
+  assert (G : forall corr0, let '(_, _, c7', _, c8') :=
+              check_from c (init h0 t0 l0) (obs_of univ 0 None [] (init h0 t0 l0)) [] [] [] [] (model_trace univ c (init h0 t0 l0) steps) 1 corr0 (-1) 0 (-1) 0 in
+              ok7 c7' /\ ok8m c8').
+  { intros corr0. pose proof (check_from_clauses_q ok7 ok8m univ c steps (init h0 t0 l0) [] H 0 None [] [] [] [] 1 corr0 (-1) 0 (-1) 0) as G.
+    destruct (check_from _ _ _ _ _ _ _ _ _ _ _ _ _ _) as [[[[r1 r2] r3] r4] r5]. destruct G as (G7 & G8). split.
+    - destruct G7 as [->|G7]; [repeat split; discriminate|exact G7].
+    - destruct G8 as [->|G8]; [repeat split; discriminate|exact G8]. }
+  assert (E : check_all cs = check_from c (init h0 t0 l0) (obs_of univ 0 None [] (init h0 t0 l0)) [] [] [] [] (model_trace univ c (init h0 t0 l0) steps) 1
+                (if corr_state (init h0 t0 l0) (obs_of univ 0 None [] (init h0 t0 l0)) then -1 else 0) (-1) 0 (-1) 0).
+  { subst cs. unfold check_all, model_case. rewrite Hl. reflexivity. }
+  specialize (G (if corr_state (init h0 t0 l0) (obs_of univ 0 None [] (init h0 t0 l0)) then -1 else 0)).
+  split; intros corr p k Ek.
+  - split; [exact (C7 corr p k Ek)|]. unfold check_case_C07 in Ek. rewrite E in Ek.
+    destruct (check_from _ _ _ _ _ _ _ _ _ _ _ _ _ _) as [[[[r1 r2] r3] r4] r5]. inversion Ek; subst. exact (proj1 G).
+  - split; [exact (C8 corr p k Ek)|]. unfold check_case_C08 in Ek. rewrite E in Ek.
+    destruct (check_from _ _ _ _ _ _ _ _ _ _ _ _ _ _) as [[[[r1 r2] r3] r4] r5]. inversion Ek; subst. exact (proj2 G).
 Qed.
